@@ -550,28 +550,8 @@ def drive(tier, verif_seed, procs, budget_s):
         for (clause, site, what), cnt in sorted(agg.known.items()):
             lines.append('KNOWN-FINDING: property=%s %s [clause=%s site=%s runs=%d]' % (PID, what, clause, site, cnt))
         if unknown and exit_code == 0:
-            r, new = unknown[0]
-            clause = new[0]['clause']
-            try:
-                m = pool.submit(driver._minimise, PID, r['taken'], clause, 120, 200.0).result(timeout=1200)
-            except Exception:
-                m = {'ok': False, 'why': traceback.format_exc(), 'overrides': r['taken'], 'execs': 0}
-            if not m['ok']:
-                print('HARNESS-ERROR violation does not replay from its decision list (%s); original: %r' % (m.get('why'), new[0]))
-                exit_code = 2
-            else:
-                rr = pool.submit(driver._replay_in_worker, PID, m['overrides'], True).result(timeout=600)
-                path = driver.write_replay(PID, r, m, rr, clause)
-                ok, out = driver.confirm_replay(PID, path, clause)
-                if ok:
-                    lines.append('VIOLATION property=%s replay=%s' % (PID, path))
-                    lines.append('  clause=%s site=%s: %s' % (clause, new[0]['site'], new[0]['text']))
-                    lines.append('  minimised to %d non-zero decisions in %d re-executions; replay confirmed in a fresh interpreter'
-                                 % (len(m['overrides']), m['execs']))
-                    exit_code = 1
-                else:
-                    print('HARNESS-ERROR violation not reproducible in a fresh interpreter (%s): %s' % (path, out[-1500:]))
-                    exit_code = 2
+            exit_code, more = driver.report_violation(PID, pool, unknown, 4, (120, 200.0))
+            lines.extend(more)
     wall = time.time() - t0
     if agg.stats.get('crash', 0) == 0 and exit_code == 0:
         print('HARNESS-ERROR no crash point was executed within the budget (no verdict)')
